@@ -61,6 +61,8 @@ def gen_cases(ctx, n, maxdepth):
         op = rng.choice(env.ops) if rng.random() < 0.9 else rng.choice(env.all_ops[:env.dim] + env.all_ops[3:3 + env.dim])
         if tree_size(e) > MAXSIZE:
             continue
+        if hasattr(e, 'has') and e.has(sympy.Abs, sympy.sign, sympy.I):
+            continue       # sqrt(x**2) of a real coordinate: Abs is outside the modelled elementary functions
         yield env, op, e
 
 
@@ -76,6 +78,9 @@ def correspondence(ctx):
             c.count('unserialisable')
             continue
         line = 'C05 pd %d %s %s' % (env.dim, ser.pd_rev[op], dumps(s))
+        if '(other ' in line:
+            c.count('outside-ast')
+            continue
         if line in seen:
             continue
         seen.add(line)
@@ -145,8 +150,10 @@ def oracle(ctx, factor, seeds):
         transcend = bool(e.atoms(sympy.sin, sympy.cos, sympy.exp)) if hasattr(e, 'atoms') else False
         varexp = any(not p.exp.is_number or not p.exp.is_Integer for p in e.atoms(sympy.Pow)) if hasattr(e, 'atoms') else False
         deep = pd_depth(e) >= 2
-        transcend = transcend or deep
-        ins = Inst(rng, env.dim, PHYS[:env.dim] + LOGI[:env.dim], positive=varexp, trig=deep)
+        negpow = any(p.exp.is_number and p.exp.is_negative for p in e.atoms(sympy.Pow)) if hasattr(e, 'atoms') else False
+        transcend = transcend or deep or negpow
+        # quotients: denominators must not vanish identically (derivative atoms of low-degree polynomials do)
+        ins = Inst(rng, env.dim, PHYS[:env.dim] + LOGI[:env.dim], positive=varexp or negpow, trig=deep or negpow)
         try:
             with time_limit(10):
                 ev = ins.inst(e)
